@@ -254,9 +254,158 @@ Proof.
   { intros w e E1 E2 [Z | (p & X1 & X2 & X3)]; [ left; exact Z | right ]. exists p. rewrite E1, E2 in *. auto. }
   constructor.
   - right. exists q1. cbn [fst snd]. split; [ reflexivity | ].
-    destruct I1 as (K1 & K2 & K3 & K4 & K5 & K6). unfold initialAllocStart in *.
-    destruct I0 as (Z1 & Z2 & Z3 & _). rewrite <- F2. rewrite <- F3, <- A2. split; lia.
+    destruct I1 as (K1 & K2 & K3 & K4 & K5 & K6). lia.
   - apply Forall_app. split.
     + eapply Forall_impl; [ | exact L2 ]. intros e He. apply (Hconv w1 e); congruence.
     + eapply Forall_impl; [ | exact L3 ]. intros e He. apply (Hconv w2 e); congruence.
+Qed.
+
+(* static_never_grows, part 2: the size gate of ZSTD_resetCCtx_internal on a static context is an error, never a resize;
+   the workspace is left untouched *)
+Lemma static_too_small_is_error_l :
+  forall rz w cp ldm row pledged ext mbs buffered inb outb ri mc,
+    is_static w = true ->
+    let ldmA := if ldm_enabled ldm then ldm_adjustParameters ldm cp else ldm in
+    cwksp_sizeof w < estimate_internal rz cp ldmA true row (reset_buffInSize cp pledged mbs buffered inb)
+                                       (reset_buffOutSize cp pledged mbs buffered outb) pledged ext mbs ->
+    resetCCtx_static rz w cp ldm row pledged ext mbs buffered inb outb ri mc = ResetMemError.
+Proof.
+  intros rz w cp ldm row pledged ext mbs buffered inb outb ri mc Hs ldmA Hlt.
+  unfold resetCCtx_static. rewrite Hs. fold ldmA.
+  destruct (N.ltb_spec (cwksp_sizeof w)
+     (estimate_internal rz cp ldmA true row (reset_buffInSize cp pledged mbs buffered inb)
+        (reset_buffOutSize cp pledged mbs buffered outb) pledged ext mbs)); [ reflexivity | lia ].
+Qed.
+
+Lemma static_never_resizes_l :
+  forall rz w cp ldm row pledged ext mbs buffered inb outb ri mc n,
+    is_static w = true ->
+    resetCCtx_static rz w cp ldm row pledged ext mbs buffered inb outb ri mc <> ResetResize n.
+Proof.
+  intros. unfold resetCCtx_static. rewrite H.
+  destruct (_ <? _); [ discriminate | ]. destruct (run _ _ _); discriminate.
+Qed.
+
+(* heap contexts: the workspace that the resize branch creates (exactly neededSpace bytes) holds the three objects
+   and every reservation of the reset, at any malloc'ed address *)
+Lemma heap_workspace_suffices_l :
+  forall rz start cp ldm row bin bout pledged ext mbs ri mc,
+    mbs <> 0 -> ldm_sized ldm ->
+    let needed := estimate_internal rz cp ldm false row bin bout pledged ext mbs in
+    let w0 := init start needed false in
+    let '(w', log) := run rz w0 (heap_objects ++ resetCCtx_ops cp ldm row bin bout pledged ext mbs ri mc) in
+    allocFailed w' = false /\ Forall (entry_in start needed) log.
+Proof.
+  intros rz start cp ldm row bin bout pledged ext mbs ri mc Hm Hl needed w0.
+  pose proof (reset_cost rz cp ldm false row bin bout pledged ext mbs ri mc Hm Hl) as HC.
+  pose proof (reset_wf cp ldm false row bin bout pledged ext mbs ri mc) as WF.
+  cbn [objects_of] in HC, WF. fold needed in HC.
+  pose proof (cwksp_fit rz start needed false _ WF ltac:(lia)) as H. cbv zeta in H. fold w0 in H.
+  destruct (run rz w0 _) as [w' log]. destruct H as (A & [B1 B2] & L). split; [ exact A | ].
+  eapply Forall_impl; [ | exact L ]. intros e [Z | (p & X1 & X2 & X3)]; [ left; exact Z | right ].
+  exists p. unfold w0, init, clear, set_initOnce in X2, X3. cbn [ws_start ws_end] in X2, X3. auto.
+Qed.
+
+(* ------------------------------------------------------------------ *)
+(* CDict *)
+
+Lemma cdict_cost rz cp row dictSize byRef msDDS :
+  ops_cost rz (cdict_ops cp row dictSize byRef msDDS) + 128
+  <= alloc_size rz sizeof_ZSTD_CDict + alloc_size rz c_HUF_WORKSPACE_SIZE + sizeof_matchState rz cp row true false
+     + (if byRef then 0 else alloc_size rz (align_up dictSize sizeof_ptr)).
+Proof.
+  destruct gen_objects_aligned as (_ & _ & _ & A4 & A5 & _ & _ & _ & P4 & P5 & S8 & _).
+  unfold cdict_ops. repeat rewrite ops_cost_app.
+  pose proof (matchState_cost_CDict rz cp row msDDS) as HM. rewrite gen_slack in HM.
+  cbn [ops_cost]. repeat rewrite object_cost by assumption. rewrite S8.
+  destruct byRef; cbn [orb ops_cost]; [ lia | ].
+  destruct (N.eqb_spec dictSize 0) as [-> | Hd]; cbn [ops_cost].
+  - lia.
+  - assert (Hal : align_up dictSize 8 mod 8 = 0) by (apply align_up_mod; lia).
+    assert (Hpos : 0 < align_up dictSize 8) by (pose proof (align_up_ge dictSize 8 ltac:(lia)); lia).
+    rewrite object_cost by assumption. lia.
+Qed.
+
+Lemma cdict_wf cp row dictSize byRef msDDS : wf_ops true (cdict_ops cp row dictSize byRef msDDS) = true.
+Proof.
+  pose proof (wf_ops_weaken _ (matchState_wf cp row false msDDS true true)) as H.
+  unfold cdict_ops. destruct (byRef || (dictSize =? 0)); cbn [app wf_ops is_object andb]; exact H.
+Qed.
+
+(* heap CDict: ZSTD_createCDict_advanced_internal mallocs exactly createCDict_workspaceSize *)
+Lemma heap_cdict_suffices_l :
+  forall rz start cp row dictSize byRef dds,
+    let sz := createCDict_workspaceSize rz cp row dictSize byRef dds in
+    let w0 := init start sz false in
+    (* with dedicated dict search the CDict match state allocates its chain table unconditionally *)
+    let '(w', log) := run rz w0 (cdict_ops cp row dictSize byRef dds) in
+    allocFailed w' = false /\ Forall (entry_in start sz) log.
+Proof.
+  intros rz start cp row dictSize byRef dds sz w0.
+  assert (HC : ops_cost rz (cdict_ops cp row dictSize byRef dds) + 128 <= sz).
+  { unfold sz, createCDict_workspaceSize.
+    destruct gen_objects_aligned as (_ & _ & _ & A4 & A5 & _ & _ & _ & P4 & P5 & S8 & _).
+    unfold cdict_ops. repeat rewrite ops_cost_app.
+    assert (HM : ops_cost rz (matchState_ops cp row false dds true true) + 128 = sizeof_matchState rz cp row dds false).
+    { unfold matchState_ops, sizeof_matchState, aligned64_alloc_size, hashLog3_of. rewrite gen_slack.
+      cbn [andb negb]. rewrite !andb_true_r. repeat rewrite ops_cost_app. cbn [ops_cost op_cost N.eqb].
+      destruct (rowMatchFinderUsed (strat cp) row); cbn [ops_cost op_cost]; lia. }
+    cbn [ops_cost]. repeat rewrite object_cost by assumption. rewrite S8.
+    destruct byRef; cbn [orb ops_cost]; [ lia | ].
+    destruct (N.eqb_spec dictSize 0) as [-> | Hd]; cbn [ops_cost]; [ lia | ].
+    assert (Hal : align_up dictSize 8 mod 8 = 0) by (apply align_up_mod; lia).
+    assert (Hpos : 0 < align_up dictSize 8) by (pose proof (align_up_ge dictSize 8 ltac:(lia)); lia).
+    rewrite object_cost by assumption. lia. }
+  pose proof (cwksp_fit rz start sz false _ (cdict_wf cp row dictSize byRef dds) ltac:(lia)) as H. cbv zeta in H. fold w0 in H.
+  destruct (run rz w0 _) as [w' log]. destruct H as (A & _ & L). split; [ exact A | ].
+  eapply Forall_impl; [ | exact L ]. intros e [Z | (p & X1 & X2 & X3)]; [ left; exact Z | right ].
+  exists p. unfold w0, init, clear, set_initOnce in X2, X3. cbn [ws_start ws_end] in X2, X3. auto.
+Qed.
+
+(* static CDict: a block of at least ZSTD_estimateCDictSize_advanced bytes is accepted and every reservation fits;
+   a smaller block is refused (NULL) *)
+Lemma static_cdict_covers_l :
+  forall rz start size cp dictSize byRef,
+    start mod 8 = 0 ->
+    estimateCDictSize_advanced rz dictSize cp byRef <= size ->
+    exists w log, initStaticCDict rz start size cp dictSize byRef = InitOk w log /\
+                  allocFailed w = false /\ Forall (entry_in start size) log.
+Proof.
+  intros rz start size cp dictSize byRef Ha Hsz.
+  set (row := resolveRowMatchFinderMode PsAuto cp).
+  pose proof (cdict_cost rz cp row dictSize byRef false) as HC.
+  unfold estimateCDictSize_advanced in Hsz. fold row in Hsz.
+  pose proof (cdict_wf cp row dictSize byRef false) as WF.
+  pose proof (cwksp_fit rz start size true _ WF ltac:(lia)) as H. cbv zeta in H.
+  unfold initStaticCDict. rewrite Ha. cbn [N.eqb negb]. fold row.
+  set (w0 := init start size true) in *.
+  unfold cdict_ops in H. cbn [app run step] in H.
+  destruct (reserve_object rz w0 sizeof_ZSTD_CDict) as [w1 r1].
+  unfold cdict_ops. cbn [app tl].
+  destruct (run rz w1 _) as [w2 l2].
+  destruct H as (A & [B1 B2] & L).
+  cbn [app] in L. inversion L as [ | e l He Hl ]; subst.
+  destruct He as [Z | (p & X1 & X2 & X3)].
+  { cbn [snd] in Z. destruct gen_objects_aligned as (_ & _ & _ & _ & _ & _ & _ & _ & P4 & _). lia. }
+  cbn [fst snd] in *. subst r1.
+  unfold staticCDict_needed, estimateCDictSize_advanced. fold row.
+  destruct (N.ltb_spec size (alloc_size rz sizeof_ZSTD_CDict + alloc_size rz c_HUF_WORKSPACE_SIZE +
+      sizeof_matchState rz cp row true false + (if byRef then 0 else alloc_size rz (align_up dictSize sizeof_ptr)))); [ exfalso; lia | ].
+  rewrite A. exists w2, ((Some p, sizeof_ZSTD_CDict) :: l2). split; [ reflexivity | ]. split; [ exact A | ].
+  assert (Hconv : forall e, entry_ok w0 e -> entry_in start size e).
+  { intros e [Z | (q & Y1 & Y2 & Y3)]; [ left; exact Z | right ]. exists q.
+    unfold w0, init, clear, set_initOnce in Y2, Y3. cbn [ws_start ws_end] in Y2, Y3. auto. }
+  constructor; [ apply Hconv; right; exists p; auto | ].
+  eapply Forall_impl; [ | exact Hl ]. exact Hconv.
+Qed.
+
+Lemma static_cdict_too_small_l :
+  forall rz start size cp dictSize byRef,
+    size < estimateCDictSize_advanced rz dictSize cp byRef ->
+    initStaticCDict rz start size cp dictSize byRef = InitNull.
+Proof.
+  intros. unfold initStaticCDict, staticCDict_needed.
+  destruct (negb (start mod 8 =? 0)); [ reflexivity | ].
+  destruct (reserve_object rz _ _) as [w1 [p | ]]; [ | reflexivity ].
+  destruct (N.ltb_spec size (estimateCDictSize_advanced rz dictSize cp byRef)); [ reflexivity | lia ].
 Qed.
